@@ -54,7 +54,7 @@ class Builder:
         for minc in mincs:
             for d in deliveries:
                 v = dict(i=len(self.vecs), op="dec", ver=ver, segs=segs, max=max_, minc=minc, legal=legal,
-                         grp=g, prop=self.prop, cuts=[])
+                         grp=g, prop=self.prop, cuts=[], model=[], has_model=0)
                 v.update(d)
                 self.vecs.append(v)
 
@@ -212,6 +212,7 @@ def build_c10(b, deep):
         if not deep:
             ds = ds[::3] + [ds[-1]]
         b.dec_group(vs[0]["ver"], vs[0]["segs"], 1, ds, mincs=(0, 1, 2, 4))
+    stats["framing"] = framing_part(b, deep, b.rnd.randint(0, 1 << 30))
     return stats
 
 
@@ -271,6 +272,56 @@ def run_conn_part(prop, tier, seed):
                 reads += 1
     viol = [dict(why=x["why"], run=runs[x["run"]]) for x in verdict["viol"]]
     return viol, dict(runs=len(runs), events=verdict["events"], h_chunk=chunks, h_read=reads, generator=gst)
+
+
+FRAMING_CFG = """SPECIFICATION {spec}
+CONSTANTS
+  FrameSeqs <- MCFrameSeqs
+  MinChunks <- MCMinChunks
+  Eager = {eager}
+  HP = {hp}
+  Deep = {deep}
+INVARIANTS TypeOK Order Conserve OneFinal MinChunkInv NoLeak Complete
+VIEW view
+CHECK_DEADLOCK FALSE
+"""
+
+
+def framing_part(b, deep, seed):
+    """Framing.tla: (1) TLC checks the C10 invariants of the decoder model for every stream of the bounded
+    universe under every interleaving of reads and decode() calls; (2) every explored complete delivery
+    (eager decoding) is replayed on the real codec, which must produce exactly the model's items"""
+    stats = []
+    for ver, hp in ((3, 3), (5, 4)):
+        d = "TRUE" if deep else "FALSE"
+        r0 = vlib.tlc("MC_Framing", FRAMING_CFG.format(spec="Spec", eager="FALSE", hp=hp, deep=d), f"framing_mc_v{ver}_{int(deep)}",
+                      workers=8, timeout=3000)
+        if r0.get("error"):
+            raise vlib.ToolError(f"Framing.tla: {r0['error']}")
+        r = vlib.tlc("MC_Framing", FRAMING_CFG.format(spec="ExportSpec", eager="TRUE", hp=hp, deep=d), f"framing_ex_v{ver}_{int(deep)}",
+                     workers=8, timeout=3000)
+        if r.get("error"):
+            raise vlib.ToolError(f"Framing.tla export: {r['error']}")
+        lines = [json.loads(a[0]) for a in vlib.prints(r["out"], "FRAMING")]
+        quota = 40000 if deep else 2500
+        if len(lines) > quota:
+            lines = sorted(lines, key=lambda v: hashlib.sha256((json.dumps(v, sort_keys=True) + str(seed)).encode()).hexdigest())[:quota]
+        for ln in lines:
+            segs = []
+            for f in ln["frames"]:
+                if f["pub"]:
+                    hdr = [0, 1, 97] + ([0] if ver == 5 else [])
+                    segs.append(dict(b=[48, len(hdr) + f["p"]] + hdr, pay=f["p"]))
+                elif f["h"] == 0:
+                    segs.append(dict(b=[192, 0], pay=0))
+                else:
+                    segs.append(dict(b=[64, 2, 0, 1], pay=0))
+            total = seg_total(segs)
+            model = [[x["kind"], x["n"], 1 if x["eof"] else 0] for x in ln["items"]]
+            b.dec_group(ver, segs, 1, [dict(cuts=[c for c in ln["cuts"] if c < total], model=model, has_model=1)], mincs=(ln["minc"],))
+        stats.append(dict(ver=ver, model_states=r0["distinct"], model_generated=r0["generated"], model_wall=r0["wall"],
+                          deliveries_explored=len(lines), export_states=r["distinct"]))
+    return stats
 
 
 BUILD = dict(C01=build_c01, C02=build_c02, C09=build_c09, C10=build_c10)
@@ -342,7 +393,7 @@ def run_wire(prop, tier, seed):
     if prop == "C10":
         conn_viol, conn_stats = run_conn_part(prop, tier, seed)
     known = vlib.load_known()
-    new, seen_known, tool = [], {}, []
+    new, seen_known, tool, drift = [], {}, [], []
     for x in conn_viol:
         sig = f"{x['why']}|conn|v{x['run']['cfg']['ver']}|{json.dumps(x['run']['vec'], sort_keys=True)}"
         k = vlib.match_known(known, prop, sig)
@@ -355,6 +406,11 @@ def run_wire(prop, tier, seed):
         why = x["why"]
         if why.startswith("TOOL:"):
             tool.append((why, v))
+            continue
+        if why.startswith("DRIFT:"):
+            # the real decoder satisfies the property but cuts the payload differently from Framing.tla:
+            # the model no longer describes the code (reported, not a violation of the property)
+            drift.append(v)
             continue
         vprop = why.split(":", 1)[0]
         desc = v["p"]["t"] if v["op"] == "enc" else v["op"]
@@ -369,11 +425,17 @@ def run_wire(prop, tier, seed):
         raise vlib.ToolError("abstract value echo differs (harness mapping error)")
     for k in seen_known.values():
         print(f"KNOWN-FINDING: property={k['property']} {k['what']}")
+    distinct = set()
+    for v in b.vecs:
+        if v["op"] == "enc" or (v["op"] == "dec" and seg_total(v["segs"]) >= 2) or (v["op"] == "sniff" and len(v["b"]) >= 2):
+            distinct.add(hashlib.sha256(json.dumps({k: x for k, x in v.items() if k not in ("i", "grp")}, sort_keys=True).encode()).digest()[:12])
     cov = dict(states=len(b.vecs), transitions=stats["items"] + stats["enc"],
+               evaluations=len(b.vecs) + (conn_stats["runs"] if conn_stats else 0), distinct_nontrivial=len(distinct),
                traces_validated_against_impl=verdict["runs"],
                vectors=dict(enc=stats["enc"], dec=stats["dec"], sniff=stats["sniff"]), groups=b.grp,
                real_outcomes=dict(errors=stats["real_err"], encoded_ok=stats["real_ok"], items=stats["items"], panics=stats["panic"]),
                generator=gstats, connection_level=conn_stats,
+               framing_model_drift=len(drift), framing_model_drift_sample=[dict(cuts=v["cuts"], minc=v["minc"], model=v["model"]) for v in drift[:3]],
                rule="TLC enumerates the vectors from the reference universe (WireGen over Wire5/Wire3); the harness runs the real "
                     "codec; TLC (WireJudge) recomputes the reference outcome for every vector and decides the recorded one",
                samples=[dict(i=v["i"], op=v["op"], ver=v.get("ver", 0),
@@ -398,6 +460,9 @@ def run_wire(prop, tier, seed):
             print(f"  reason={x['why']} vector={json.dumps(vv)[:400]}")
         print(f"  ({len(new)} violating vectors of {len(b.vecs)})")
         return 1
+    if drift:
+        print(f"NOTE: {len(drift)} deliveries are cut into pieces differently from what spec/Framing.tla predicts "
+              f"(the property holds on them; the model needs an update)")
     print(f"OK property={prop} tier={tier} vectors={len(b.vecs)} (enc {stats['enc']}, dec {stats['dec']}, sniff {stats['sniff']}) "
           f"items={stats['items']} judged={verdict['runs']} wall={time.time()-t0:.1f}s")
     return 0
